@@ -395,7 +395,7 @@ namespace sse
                     break;
                 }
                 sum += w;
-                if (std::fabs(static_cast<long double>(w) - e[k] / tot) > 1e-9L)
+                if (!(std::fabs(static_cast<long double>(w) - e[k] / tot) <= 1e-9L))
                 {
                     f.push_back({ "weight-not-proportional",
                                   "node " + node_s(i) + " receiver " + node_s(got[k].first)
@@ -405,7 +405,7 @@ namespace sse
                     break;
                 }
             }
-            if (!bad && std::fabs(sum - 1.0L) > 1e-12L)
+            if (!bad && !(std::fabs(sum - 1.0L) <= 1e-12L))
                 f.push_back({ "weights-do-not-sum-to-one",
                               "node " + node_s(i) + " sum " + hexd(static_cast<double>(sum)) });
         }
